@@ -84,7 +84,9 @@ class _ModuleProxy(types.ModuleType):
 
 
 _threading_proxy = _ModuleProxy(_threading, {
-    "Lock": _sched.SimLock, "RLock": _sched.SimRLock, "Thread": _sched.SimThread})
+    "Lock": _sched.SimLock, "RLock": _sched.SimRLock, "Thread": _sched.SimThread,
+    "Event": _sched.SimEvent, "Semaphore": _sched.SimSemaphore, "BoundedSemaphore": _sched.SimSemaphore,
+    "Condition": _sched.SimCondition})
 _queue_proxy = _ModuleProxy(_queue, {
     "SimpleQueue": _sched.SimQueue, "Queue": _sched.SimQueue})
 _time_proxy = _ModuleProxy(_time, {"time": sim_time})
@@ -98,6 +100,10 @@ _REBIND = [
     (_threading.Lock, _sched.SimLock, "Lock"),
     (_threading.RLock, _sched.SimRLock, "RLock"),
     (_threading.Thread, _sched.SimThread, "Thread"),
+    (_threading.Event, _sched.SimEvent, "Event"),
+    (_threading.Semaphore, _sched.SimSemaphore, "Semaphore"),
+    (_threading.BoundedSemaphore, _sched.SimSemaphore, "BoundedSemaphore"),
+    (_threading.Condition, _sched.SimCondition, "Condition"),
     (_queue.SimpleQueue, _sched.SimQueue, "SimpleQueue"),
     (_queue.Queue, _sched.SimQueue, "Queue"),
     (_time.time, sim_time, "time.time"),
@@ -196,6 +202,11 @@ def _scan_resettable():
                     if hasattr(f, "cache_clear") and id(f) not in seen:
                         seen.add(id(f))
                         _CACHES.append(f)
+                    elif isinstance(av, (dict, list, set)) and not av and not an.startswith("__") \
+                            and id(av) not in seen:
+                        # class-level mutable state shared by all instances
+                        seen.add(id(av))
+                        _CONTAINERS.append(av)
 
 
 def require_seams(*names):
@@ -215,6 +226,7 @@ def begin_run(seed, clock=None):
     # Never replace the Destinations instance: public names are bound methods
     # of it.  Re-initialise in place.
     Logger._destinations.__init__()
+    Logger._destinations.__dict__.pop("send", None)      # a check's per-run wrapper (C11)
     _output._DEFAULT_LOGGER = _ORIG["default_logger"]
     # re-initialise the extractor registry in place (public names are bound methods of this
     # instance) and re-register the defaults through the public API, so that any derived state a
